@@ -10,6 +10,7 @@ a proof as well as the correspondence.
   h2AcceptCaseFold       _validate lower-cases both sides of the accept comparison      (F7)
   h2ConnectionNamed      the `connection` option is sent as `Connection: <value>`       (F15)
   h2DecodeGuard          read_headers maps UnicodeDecodeError to WebSocketException     (F8)
+  recvDecodeGuard        WebSocket.recv() maps UnicodeDecodeError of data.decode("utf-8") to WebSocketPayloadException
   h2StatusGuard          read_headers maps IndexError/ValueError of the status line     (F8)
   h2LocationGuard        connect() does not index headers["location"] unguarded         (F8)
   h2LocationParseGuard   connect() validates the redirect target with parse_url and maps its
@@ -231,6 +232,29 @@ def extend(repo, T, ex):
     if g is None:
         raise ex.ExtractError("read_headers: line.decode(...) not found")
     T["h2DecodeGuard"] = g
+
+    # ---- WebSocket.recv(): the text payload is decoded; an undecodable one must surface as WebSocketPayloadException
+    rf = ex._find(ws.body, ast.FunctionDef, "recv")
+    decs = [n for n in ast.walk(rf) if is_decode(n)]
+    if not decs:
+        raise ex.ExtractError("WebSocket.recv: data.decode(...) not found")
+    for d in decs:
+        if d.args[1:] or any(k.arg == "errors" for k in d.keywords):
+            raise ex.ExtractError("WebSocket.recv: decode() with an error handler is not modelled")
+    guard = True
+    for d in decs:
+        ok = False
+        for t in ast.walk(rf):
+            if isinstance(t, ast.Try) and any(m is d for b in t.body for m in ast.walk(b)):
+                for h in t.handlers:
+                    names = _handler_names(h)
+                    raises_payload = any(isinstance(n, ast.Raise) and n.exc is not None and
+                                         getattr((n.exc.func if isinstance(n.exc, ast.Call) else n.exc), "id", "") ==
+                                         "WebSocketPayloadException" for n in ast.walk(h))
+                    if names & {"UnicodeDecodeError", "UnicodeError", "ValueError"} and raises_payload:
+                        ok = True
+        guard = guard and ok
+    T["recvDecodeGuard"] = guard
     g = _guarded(f, is_int_status, ["IndexError", "ValueError"])
     if g is None:
         raise ex.ExtractError("read_headers: int(status_info[1]) not found")
